@@ -32,6 +32,7 @@ func (eng *Engine) verifyFunction(fn *ssa.Function, con *Contract, pkg *PkgInfo)
 	init := &State{Heap: map[string]Term{}, Gh: map[string]Term{}}
 	init.NA = vc.sc.declare("NA@0", "Int")
 	fc.na0 = init.NA
+	vc.na0 = init.NA
 	vc.sc.assert(app(">", init.NA, "0"))
 	fc.old = init.clone()
 	vc.st = init
@@ -462,6 +463,9 @@ func (fc *FnCtx) unop(in *ssa.UnOp, st *State) {
 	switch in.Op {
 	case token.MUL:
 		fc.nilCheck(x, in, "*"+fc.nameOf(in.X))
+		if fa, ok := in.X.(*ssa.FieldAddr); ok {
+			fc.fieldHooks("load", fa, []ssa.Value{fa.X}, in, st)
+		}
 		v := vc.load(st, x, in.Type())
 		v = fc.nameVal("ld_"+in.Name(), v)
 		fc.assume(fc.typeFacts(v, st.NA))
